@@ -20,6 +20,7 @@ GNext == /\ Len(hist) < MaxLen
                   IDef(n, fl) /\ hist' = Append(hist, [Act("def", n, fl) EXCEPT !.fl = fl] @@ [v |-> DefVal(cur, n, NextT(cur, n))])
             \/ IInNs /\ hist' = Append(hist, Act("inns", "-", "-") @@ [v |-> 0])
             \/ IRequireAs /\ hist' = Append(hist, Act("req", "-", "-") @@ [v |-> 0])
+            \/ IAliasSelf /\ hist' = Append(hist, Act("aliasself", "-", "-") @@ [v |-> 0])
             \/ \E n \in Names : IRefer(n) /\ hist' = Append(hist, Act("refer", n, "-") @@ [v |-> 0])
             \/ \E n \in Names : IAlterRoot(n) /\ hist' = Append(hist, Act("alter", n, "-") @@ [v |-> AltVal(cur, n)])
 GSpec == GInit /\ [][GNext]_gvars
